@@ -373,8 +373,12 @@ fn derive_call_shape(def: &CallDef, symbol_table: &mut BTreeMap<Rc<str>, Shape>)
             for (arg_name, arg_expr) in fdef.arg_order.iter().zip(def.arglist.iter()) {
                 let actual_shape = arg_expr.derive_shape(symbol_table);
                 if let Some(declared_shape) = fdef.args.get(arg_name) {
+                    // A parameter that is still a hole is named after the
+                    // parameter. Narrow against a copy of the table so that
+                    // it can not retype a caller's binding of the same name.
+                    let mut scratch = symbol_table.clone();
                     if let Shape::TypeErr(pos, msg) =
-                        declared_shape.narrow(&actual_shape, symbol_table)
+                        declared_shape.narrow(&actual_shape, &mut scratch)
                     {
                         return Shape::TypeErr(pos, msg);
                     }
